@@ -90,10 +90,23 @@ theorem bad_source_ignored {cfg ic nn t source e} (hc : cfg.badSourceIsIgnored =
   rw [route_bad hbad]
   simp [badSource, hc]
 
-/-- **never panics.**  With the repaired sanity check, and a `ProxyNext` that is nil whenever it
-is empty (`nn = false`: every protobuf-decoded envelope) or simply non-empty after the
-interceptor, `forwardRpc` never panics. -/
+/-- **never panics.**  With the repaired sanity check and the repaired route test
+(`len(ProxyNext) > 0`), `forwardRpc` never panics: whatever the envelope, whatever the interceptor
+did to its header, nil or empty-but-non-nil `ProxyNext` alike. -/
 theorem forward_never_panics {cfg ic nn t source e} (hc : cfg.badSourceIsIgnored = true)
+    (he : cfg.emptyNextIsNoRoute = true) :
+    ∀ w, (forward cfg ic nn t source e).action ≠ .panic w := by
+  intro w hp
+  have hr := forward_panic hp
+  cases w with
+  | badSource => have := route_panic_badSource hr; simp [hc] at this
+  | emptyNext =>
+    obtain ⟨hdr, h1, hh, _, hic, hnn, hne⟩ := route_panic_emptyNext hr
+    simp [nnEff, he] at hnn
+
+/-- the same for the code before 6d5dbe5, where it needed a premise: a `ProxyNext` that is nil
+whenever it is empty (every protobuf-decoded envelope) or non-empty after the interceptor -/
+theorem forward_never_panics_legacy {cfg ic nn t source e} (hc : cfg.badSourceIsIgnored = true)
     (hn : nn = false ∨ ∀ hdr h1, e.header = some hdr → ic hdr = some h1 → h1.next ≠ []) :
     ∀ w, (forward cfg ic nn t source e).action ≠ .panic w := by
   intro w hp
@@ -103,15 +116,19 @@ theorem forward_never_panics {cfg ic nn t source e} (hc : cfg.badSourceIsIgnored
   | emptyNext =>
     obtain ⟨hdr, h1, hh, _, hic, hnn, hne⟩ := route_panic_emptyNext hr
     rcases hn with hn | hn
-    · simp [hn] at hnn
+    · simp [nnEff, hn] at hnn
     · exact hn hdr h1 hh hic hne
 
-/-- the residual noted in DESIGN.md C16: an empty but non-nil `ProxyNext` (possible only for an
-envelope passed by reference from a proxy that consumed the last hop) is an index-out-of-range
-panic in the code as it is now -/
-theorem empty_nonnil_next_panics :
-    (forward {} some true {} [1] { header := some { src := [1], dst := [2] } }).action
-      = .panic .emptyNext := by decide
+/-- negative witness for `emptyNextIsNoRoute`: before 6d5dbe5 an empty but non-nil `ProxyNext`
+(an envelope passed by reference: the channel transport, or a proxy that consumed the last hop by
+re-slicing) is an index-out-of-range panic — with an honest source and no interceptor -/
+theorem bad_emptyNextIsNoRoute :
+    (forward { emptyNextIsNoRoute := false } some true {} [1]
+        { header := some { src := [1], dst := [2] } }).action = .panic .emptyNext := by decide
+
+/-- … and the repaired code forwards that envelope to its destination -/
+example : (forward {} some true {} [1] { header := some { src := [1], dst := [2] } }).action
+    = .enqueue [2] { header := some { src := [1], dst := [2], record := [[]] } } := by decide
 
 /-- negative witness for `badSourceIsIgnored`: before the repair one envelope with a spoofed
 source (or none) kills the process -/
@@ -179,16 +196,17 @@ theorem no_badSource_panic {cfg : Cfg} (hc : cfg.badSourceIsIgnored = true) {s :
     (hr : Reachable cfg s) : s.panicked ≠ some .badSource :=
   (inv_reachable hr).2.2.2 hc
 
-/-- … and a serve step on a protobuf-decoded envelope (`nn = false`) never panics at all -/
-theorem cmdRpc_no_panic {cfg : Cfg} (hc : cfg.badSourceIsIgnored = true) {s s' : State} {i ic}
-    (hs : step cfg s (.cmdRpc i ic false) = some s') : s'.panicked = none := by
+/-- … and a serve step never panics at all, whatever the envelope (nil or empty non-nil `ProxyNext`) -/
+theorem cmdRpc_no_panic {cfg : Cfg} (hc : cfg.badSourceIsIgnored = true)
+    (he : cfg.emptyNextIsNoRoute = true) {s s' : State} {i ic nn}
+    (hs : step cfg s (.cmdRpc i ic nn) = some s') : s'.panicked = none := by
   unfold step at hs; split at hs; (· contradiction)
   simp only at hs
   (repeat' split at hs) <;> (try contradiction) <;>
     (simp only [Option.some.injEq] at hs; subst hs) <;>
     first
     | rfl
-    | (rename_i hw; exact absurd hw (forward_never_panics hc (Or.inl rfl) _))
+    | (rename_i hw; exact absurd hw (forward_never_panics hc he _))
 
 /-- non-vacuity: a spoofed envelope (source `[9]` on the connection attached as `[1]`) is
 ignored, a genuine one is forwarded -/
